@@ -40,7 +40,17 @@
      answers, `v:<entries>` = what the physical RIB holds for the prefix unless a filter of the chain rejects it (spec),
      `v:STALL` where the code never answers (model: the physical RIB holds a record of the prefix -
      reprocess_rib_value is todo!(): class KV, known finding C13-vrib-query-todo). The engine ends the case at a
-     request that is never answered: every later token of the model is `x` (class KV). *)
+     request that is never answered: every later token of the model is `x` (class KV).
+   - Ingress units removed and added by reloads (E2eModel.i_step, extracted): a case with `J` / `JL` ops has a second ingress
+     unit bmp-in2 from the start (routers 0..3 connect to bmp-in, 4..7 to bmp-in2; every RIB unit sources both). `J 0` / `J 1` =
+     the operator takes [units.bmp-in] out of the configuration / puts it back; effective with the next H / L: the manager
+     terminates the running unit - every connection of it ends as a lost connection ends (WithdrawBulk of the ids registered
+     under that router; the RIB units keep answering, nothing of bmp-in2 moves) - or starts a NEW unit, which registers an
+     ingress id of its own: a router that connects to it is looked up under another parent and is a new source, named
+     k<8*g + k> (g = bmp-in units started before it). `JL u` = GET of the router list of unit u: `r:<connected routers>`,
+     `r:-` when the unit does not run (404). `G k` then counts the ids address k has been given over all incarnations.
+     `C k` while bmp-in does not run is skipped. The expectation of such a case comes from E2eModel alone (eng_pipe is not
+     asked); `M` prints `- -`. *)
 open Conv
 open BmpModel
 open PipeModel
@@ -57,6 +67,8 @@ type item =
   | Script of int           (* W s [1] *)
   | Unit2 of int            (* Y y *)
   | Vribs of int            (* K n *)
+  | Ingress of bool         (* J j *)
+  | Listed of int           (* JL u *)
   | QueryV of string list   (* N i af p: the query asked of generated vRIB i *)
   | Conn of int
   | Metrics of int          (* M k: m-token and n-token *)
@@ -125,7 +137,8 @@ let answer tag ids (hist : RibModel.update list) (rb : RibModel.rib) (sw : sworl
 let run_case (line : string) : string =
   let ops = Stdlib.List.map words (split_on ';' line) in
   let ops = Stdlib.List.filter (fun o -> o <> []) ops in
-  let scripted = Stdlib.List.exists (fun o -> Stdlib.List.mem (Stdlib.List.hd o) ["F"; "W"; "Y"; "P"; "K"; "N"]) ops in
+  let ingress = Stdlib.List.exists (fun o -> Stdlib.List.mem (Stdlib.List.hd o) ["J"; "JL"]) ops in
+  let scripted = ingress || Stdlib.List.exists (fun o -> Stdlib.List.mem (Stdlib.List.hd o) ["F"; "W"; "Y"; "P"; "K"; "N"]) ops in
   let startup = match ops with ("F" :: s :: _) :: _ -> int_of_string s | _ -> 0 in
   (* the leading F / K ops describe the start-up configuration (F only as the first op) *)
   let max_vribs = 3 in
@@ -137,6 +150,8 @@ let run_case (line : string) : string =
     go 0 0 ops in
   (* pass 1: what the engine does with each op, and the case the pipeline model sees *)
   let live = ref [] in
+  (* bmp-in: in the file / running (pass 1 follows the reloads to know which connections exist) *)
+  let want1 = ref true and run1 = ref true in
   let pipe_ops = ref [] in
   let push o = pipe_ops := o :: !pipe_ops in
   let items = Stdlib.List.map (fun toks ->
@@ -147,13 +162,18 @@ let run_case (line : string) : string =
       | "W" -> Script (i 1)
       | "Y" -> Unit2 (i 1)
       | "K" -> Vribs (min max_vribs (i 1))
+      | "J" -> want1 := (i 1 <> 0); Ingress (i 1 <> 0)
+      | "JL" -> Listed (min 1 (i 1))
       | "N" -> QueryV toks
       | "P" -> Query2 toks
-      | "L" | "H" -> Reload (match toks with [_; v] -> Some (int_of_string v) | _ -> None)
+      | "L" | "H" ->
+          if !run1 && not !want1 then live := Stdlib.List.filter (fun k -> k >= 4) !live;
+          run1 := !want1;
+          Reload (match toks with [_; v] -> Some (int_of_string v) | _ -> None)
       | "V" -> Label (i 1)
       | "G" -> Ids (i 1)
       | "C" -> let k = i 1 in
-          if Stdlib.List.mem k !live then Skip else (live := k :: !live; push self; Conn k)
+          if Stdlib.List.mem k !live || (ingress && k < 4 && not !run1) then Skip else (live := k :: !live; push self; Conn k)
       | "X" -> let k = i 1 in
           if Stdlib.List.mem k !live then (live := Stdlib.List.filter (fun x -> x <> k) !live; push self; Disc k)
           else Skip
@@ -161,10 +181,11 @@ let run_case (line : string) : string =
       | "Q" -> push self; Query toks
       | "I" | "T" | "S" | "U" | "D" | "R" | "E" | "B" -> push self; Msg (i 1, toks)
       | s -> failwith ("bad op " ^ s)) ops in
-  let pipe_line = join ";" (Stdlib.List.rev !pipe_ops) in
+  let pipe_line = if ingress then "" else join ";" (Stdlib.List.rev !pipe_ops) in
   let (pm, ps, pc) = if pipe_line = "" then ([], [], []) else split3 (Eng_pipe.run_case pipe_line) in
   let pm = ref pm and ps = ref ps and pc = ref pc in
   let next () =
+    if ingress then ("-", "-", ".") else
     match !pm, !ps, !pc with
     | a :: ta, b :: tb, c :: tc -> pm := ta; ps := tb; pc := tc; (a, b, c)
     | _ -> failwith "pipe output too short" in
@@ -179,23 +200,42 @@ let run_case (line : string) : string =
   let ended = ref false in
   let emit a b c = res := (if !ended then ("x", b, "KV") else (a, b, c)) :: !res in
   (* the pipeline with its script and RIB units (E2eModel), stepped along in a case that uses them *)
-  let est = ref (e_init_v (script_of startup) (n startup_vribs)) in
+  let ist = ref (i_init (script_of startup) (n startup_vribs)) in
+  let est = ref (if ingress then !ist.is_e else e_init_v (script_of startup) (n startup_vribs)) in
   let hist1 : RibModel.update list ref = ref [] and hist2 : RibModel.update list ref = ref [] in
+  (* the update a world operation makes the ingress unit send, as each RIB unit takes it (for the classification) *)
+  let record (wo : wop) =
+    match upd_of (snd (wstep !est.es_w wo)) with
+    | Some u ->
+        hist1 := !hist1 @ [filter_update !est.es_rib.ru_filter u];
+        (match !est.es_rib2 with Some r -> hist2 := !hist2 @ [filter_update r.ru_filter u] | None -> ())
+    | None -> () in
+  let born r = match r with Some r -> Some r.ru_born | None -> None in
   let estep (o : eop) =
-    if scripted then begin
+    if ingress then begin
       (match o with
-       | EW wo ->
-           (match upd_of (snd (wstep !est.es_w wo)) with
-            | Some u ->
-                hist1 := !hist1 @ [filter_update !est.es_rib.ru_filter u];
-                (match !est.es_rib2 with Some r -> hist2 := !hist2 @ [filter_update r.ru_filter u] | None -> ())
-            | None -> ())
+       | EW wo -> record (wop_rekey (src_key !ist.is_gen) wo)
+       | EReload -> Stdlib.List.iter (fun x -> match x with EW wo -> record wo | _ -> ()) (i_removal_ops !ist)
        | _ -> ());
-      let born r = match r with Some r -> Some r.ru_born | None -> None in
+      let before = born !est.es_rib2 in
+      ist := i_step false !ist (IE o);
+      est := !ist.is_e;
+      if born !est.es_rib2 <> before then hist2 := []
+    end else if scripted then begin
+      (match o with EW wo -> record wo | _ -> ());
       let before = born !est.es_rib2 in
       est := e_step false !est o;
       if born !est.es_rib2 <> before then hist2 := []
     end in
+  (* the kind of outcome of a BMP message, as eng_pipe names it (ingress cases: from the model's own step) *)
+  let outcome_tok (wo : wop) : string =
+    match snd (wstep !est.es_w (wop_rekey (src_key !ist.is_gen) wo)) with
+    | WoStep (o, ph) ->
+        let base = (match o with OInvalid -> "i" | OOther -> "o" | OTransition -> "t" | OUpdate _ -> "u") in
+        if int_of_n ph = 9 then base else Printf.sprintf "%s/%d" base (int_of_n ph)
+    | _ -> "-" in
+  (* router address -> the different ingress ids it has been given (ingress cases) *)
+  let given : (int * BinNums.coq_N list) list ref = ref [] in
   let ask tag toks (unit : (runit * sworld * RibModel.update list) option) =
     let af = n (int_of_string (Stdlib.List.nth toks 1)) in
     let pfx = Eng_pipe.pid (int_of_string (Stdlib.List.nth toks 1)) (int_of_string (Stdlib.List.nth toks 2)) in
@@ -232,11 +272,17 @@ let run_case (line : string) : string =
                     let mt = if pm = "v:" then "v:" else "v:?" in
                     emit mt st (if mt = st then "." else if pc = "." then "?" else pc)))
       | Vribs k -> estep (EVribs (n k)); emit "-" "-" "."
+      | Ingress b -> ist := i_step false !ist (IIngress b); emit "-" "-" "."
+      | Listed u ->
+          let t = (match i_listed !ist (n u) with Some c -> Printf.sprintf "r:%d" (int_of_n c) | None -> "r:-") in
+          emit t t "."
       | Script s -> estep (EScript (script_of s)); emit "-" "-" "."
       | Unit2 y -> estep (EUnit (n y)); emit "-" "-" "."
       | Msg (k, toks) ->
+          let a_ing = if ingress then outcome_tok (wop_of toks) else "-" in
           estep (EW (wop_of toks));
           let (a, _, _) = next () in
+          let a = if ingress then a_ing else a in
           (match Stdlib.List.assoc_opt k !conn with
            | Some (cur, _) ->
                (* the message is counted under the router id the session has; when its outcome is a state transition
@@ -247,15 +293,34 @@ let run_case (line : string) : string =
                set k (cur', Some cur)
            | None -> ());
           uc := uc_step !uc (WMsg (n k, MInit)); emit "-" "-" "."
-      | Conn k -> ignore (next ()); estep (EW (WConnect (n k))); uc := uc_step !uc (WConnect (n k)); set k (!variant, None); emit "-" "-" "."
-      | Reload v -> (match v with Some v -> variant := v | None -> ()); estep EReload; emit "-" "-" "."
+      | Conn k ->
+          ignore (next ()); estep (EW (WConnect (n k))); uc := uc_step !uc (WConnect (n k)); set k (!variant, None);
+          (if ingress then match i_rid !ist (n k) with
+             | Some rid ->
+                 let old = (match Stdlib.List.assoc_opt k !given with Some l -> l | None -> []) in
+                 if not (Stdlib.List.mem rid old) then given := (k, rid :: old) :: Stdlib.List.remove_assoc k !given
+             | None -> ());
+          emit "-" "-" "."
+      | Reload v ->
+          (match v with Some v -> variant := v | None -> ());
+          let ran = !ist.is_run in
+          estep EReload;
+          (* the connections of a unit that was terminated are gone *)
+          if ingress && ran && not !ist.is_run then conn := Stdlib.List.filter (fun (k, _) -> k >= 4) !conn;
+          emit "-" "-" "."
       | Label k ->
           (match Stdlib.List.assoc_opt k !conn with
            | None -> emit "-" "-" "."
            | Some (_, None) -> emit "t:-" "t:-" "."
            | Some (_, Some v) -> let t = Printf.sprintf "t:%d" v in emit t t ".")
-      | Ids k -> if Stdlib.List.mem_assoc k !conn then emit "g:1" "g:1" "." else emit "-" "-" "."
+      | Ids k ->
+          if not (Stdlib.List.mem_assoc k !conn) then emit "-" "-" "."
+          else if ingress then begin
+            let t = Printf.sprintf "g:%d" (match Stdlib.List.assoc_opt k !given with Some l -> Stdlib.List.length l | None -> 0) in
+            emit t t "."
+          end else emit "g:1" "g:1" "."
       | Disc k -> ignore (next ()); estep (EW (WDisconnect (n k))); uc := uc_step !uc (WDisconnect (n k)); conn := Stdlib.List.remove_assoc k !conn; emit "-" "-" "."
+      | Metrics _ when ingress -> emit "-" "-" "."; emit "-" "-" "."
       | Metrics _ ->
           let (a, b, c) = next () in
           if starts "m:" a then emit a b c else emit "-" "-" ".";
